@@ -113,14 +113,18 @@ func decodeJSONValue(dec *json.Decoder, depth int) (r.Element, error) {
 
 func ElementToJSONString(elem r.Element) (*value.String, error) {
 	var buf bytes.Buffer
-	if err := writeJSONValue(&buf, elem); err != nil {
+	if err := writeJSONValue(&buf, elem, 1); err != nil {
 		return nil, value.ThrowException("生成JSON失败 - " + err.Error())
 	}
 	return value.NewString(buf.String()), nil
 }
 
 // writeJSONValue - encode an element; object members follow the key order of the HashMap
-func writeJSONValue(buf *bytes.Buffer, elem r.Element) error {
+func writeJSONValue(buf *bytes.Buffer, elem r.Element, depth int) error {
+	// the same bound as for parsing: what is written here must be readable by 解析JSON
+	if depth > maxJSONDepth {
+		return fmt.Errorf("exceeded max depth %d", maxJSONDepth)
+	}
 	switch vv := elem.(type) {
 	case *value.Array:
 		buf.WriteByte('[')
@@ -128,7 +132,7 @@ func writeJSONValue(buf *bytes.Buffer, elem r.Element) error {
 			if idx > 0 {
 				buf.WriteByte(',')
 			}
-			if err := writeJSONValue(buf, vi); err != nil {
+			if err := writeJSONValue(buf, vi, depth+1); err != nil {
 				return err
 			}
 		}
@@ -147,7 +151,7 @@ func writeJSONValue(buf *bytes.Buffer, elem r.Element) error {
 			}
 			buf.Write(keyData)
 			buf.WriteByte(':')
-			if err := writeJSONValue(buf, items[key]); err != nil {
+			if err := writeJSONValue(buf, items[key], depth+1); err != nil {
 				return err
 			}
 		}
